@@ -101,6 +101,27 @@ func TValue(v *ast.Value, names map[string]bool) string {
 	return "TLeaf"
 }
 
+// tDirs renders applied directives as a list of Plan.Header.dirapp.
+func tDirs(dl ast.DirectiveList, names map[string]bool) string {
+	ds := make([]string, len(dl))
+	for i, d := range dl {
+		ddef := "None"
+		if d.Definition != nil {
+			ads := make([]string, len(d.Definition.Arguments))
+			for j, ad := range d.Definition.Arguments {
+				ads[j] = "(" + CoqStr(ad.Name) + ", (" + CoqStr(ad.Type.String()) + ", " + CoqStr(ad.Type.Name()) + "))"
+			}
+			ddef = "(Some [" + strings.Join(ads, "; ") + "])"
+		}
+		das := make([]string, len(d.Arguments))
+		for j, a := range d.Arguments {
+			das[j] = "(" + CoqStr(a.Name) + ", " + TValue(a.Value, names) + ")"
+		}
+		ds[i] = "(" + ddef + ", [" + strings.Join(das, "; ") + "])"
+	}
+	return "[" + strings.Join(ds, "; ") + "]"
+}
+
 // TSelectionSet renders an ast.SelectionSet as a list of Plan.Header.tsel.
 func TSelectionSet(ss ast.SelectionSet, names map[string]bool) string {
 	var items []string
@@ -120,9 +141,9 @@ func TSelectionSet(ss ast.SelectionSet, names map[string]bool) string {
 			for i, a := range s.Arguments {
 				as[i] = "(" + CoqStr(a.Name) + ", " + TValue(a.Value, names) + ")"
 			}
-			items = append(items, "TField "+fdef+" ["+strings.Join(as, "; ")+"] "+TSelectionSet(s.SelectionSet, names))
+			items = append(items, "TField "+fdef+" ["+strings.Join(as, "; ")+"] "+tDirs(s.Directives, names)+" "+TSelectionSet(s.SelectionSet, names))
 		case *ast.InlineFragment:
-			items = append(items, "TInline "+TSelectionSet(s.SelectionSet, names))
+			items = append(items, "TInline "+tDirs(s.Directives, names)+" "+TSelectionSet(s.SelectionSet, names))
 		}
 	}
 	return "[" + strings.Join(items, "; ") + "]"
